@@ -50,6 +50,24 @@ CHECKS = {
 	'C10': ('exploration', 'runtime monitor: strict-consensus model vs consensus_taxon / classify(strict=True) for every forest on <=5 taxa x every matched subset x every order; every permutation of reference genomes for seeded worlds; end-to-end --strict with permuted signature files',
 	        'All 1296 rooted labelled forests on 5 taxa (plus n<=4; thorough: 6 taxa) x every non-empty matched subset x every order of encounter are pushed through the real consensus function and compared with the model (chain -> deepest, otherwise LCA of the most specific, none -> failed); classify(strict=True) is run on every permutation of up to 6 reference genomes for seeded forests biased to three-level conflicts and checked for prediction, success/error, conflict warning and primary match; gambit query --strict is run with the signature file order permuted.',
 	        'Warnings not judged when the prediction is None; any minimum accepted as primary match.', 'DESIGN.md 3/C10'),
+	'C08': ('exploration', 'runtime monitor: oracle row per genome + metamorphic equality with the alone-run over batches, orderings, input channels, -c, progress and formats of gambit query; query() chunk sizes; console-script slice',
+	        'Sequence worlds (reference genomes mutated along a tree, signatures from the reference definition) are queried in batches of 1..30 files in several orders through positional arguments, list files (relative / absolute, blank lines), gzip copies and signature files made by signatures create or by the oracle, with -c 1..16, progress on/off, csv/json/archive and --strict; row count, order, labels (basename minus .gz minus FASTA extension, or stored id) and row content are compared with the oracle and with the row the genome gets alone.',
+	        'Path fields / timestamps are not genome content; tied closest genomes resolved by reference order.', 'DESIGN.md 3/C08'),
+	'C11': ('exploration', 'runtime monitor: results objects from real queries exported as csv/json/archive, parsed back with stdlib csv/json and the archive reader, compared field by field with plain attribute access; known-finding classifier by mechanism',
+	        'Strict and non-strict result sets (no prediction, unreportable taxon, failed strict results, warnings, items without source file, primary != closest) with hostile labels / taxon names / genome descriptions are exported to paths and file objects, pretty or not, and through gambit query -f; CSV must parse back with a standard reader and every cell equal the attribute, JSON must be valid and carry label / reported / next taxon / closest genomes, the archive read back must equal the original incl. every distance bit, warnings, errors, params.',
+	        'Known finding csv-bare-cr (bare CR written unquoted by the Python 3.12 csv module with LF terminator) is keyed by mechanism; every other CSV mismatch stays a violation.', 'DESIGN.md 3/C11'),
+	'C14': ('exploration', 'runtime monitor: exit status + output inspection for every command / option combination bringing two signature sources together with mismatching parameters; oracle distances under the expected parameters for matching / inferred ones',
+	        'For parameter pairs differing in k, prefix, both, prefix length or only prefix case, query -s (csv/json/archive/strict), dist with every query channel x reference channel x explicit / inferred -k/-p, incomplete -k/-p and --db-params conflicts are run: mismatches must exit non-zero and leave no result; matching / inferred combinations must give the oracle distances under the pre-computed side\'s or the database\'s (non-default) parameters.',
+	        'An existing but empty -o file is not a result.', 'DESIGN.md 3/C14'),
+	'C16': ('exploration', 'runtime monitor: CSV of gambit dist parsed with the stdlib reader and compared with oracle labels and float32 oracle distances for all 3 x 5 channel combinations',
+	        'Genome sets with identical genomes, empty signatures and hostile file names / ids are passed through -q, --ql/--qdir, --qs and -r, --rl/--rdir, --rs, --use-db, --square with explicit, inferred or default parameters and -c; header, row labels, shape, 4-decimal format and value (within 0.5e-4) of every cell are checked, --square must be symmetric with zero diagonal and equal the both-sides run.',
+	        'Exact halves accept either rounding.', 'DESIGN.md 3/C16'),
+	'C17': ('exploration', 'runtime monitor: stdout of gambit tree parsed by an independent Newick parser and checked by a UPGMA validator (any legal tie-breaking accepted) against the oracle distance matrix',
+	        'Sets of 2..40 genomes incl. identical genomes (zero-length merges), all-equidistant sets (every merge a tie), duplicate and Newick-special labels are given as files, list files and signature files; the output must be exactly one rooted binary tree with the input labels, non-negative branch lengths, ultrametric, and every internal node must join two current clusters at their average-linkage distance, minimal among all current pairs.',
+	        'Tolerance derived from the 8 printed significant digits.', 'DESIGN.md 3/C17'),
+	'C18': ('exploration', 'runtime monitor over histories: stat+sha256 snapshots after every step, SQLAlchemy cursor listener (no write statement), commit()/flush() behaviour of the default and CLI sessions, strace -f -y write-class syscalls on the two files',
+	        'Seeded histories of read-side commands (query, dist --use-db, signatures info/create --db-params, tree), library calls, ORM edits with flush / autoflush / commit / rollback, failing commands and concurrent commands run against copies of synthetic databases and the bundled test database; after every step size, hash, inode, mtime and ctime of both files and the directory listing must be unchanged, no INSERT/UPDATE/DELETE/DDL may reach SQLite, commit must raise, and straced console-script runs must show no write-class system call on either file.',
+	        'Histories are finite and drawn from the commands that exist today; SQLite opening the file O_RDWR is not an event.', 'DESIGN.md 3/C18'),
 }
 
 NOT_APPLICABLE = []
